@@ -61,9 +61,9 @@ Whys(e) ==
              A == Cardinality(Alphabet(r))
              num == CountValidBig(r)
              den == Pow(FromInt(A), r.len)
-         IN <<IF Le(MulSmall(num, 1000), MulSmall(den, 85)) /\ ~(e.kind = "err" /\ e.err = "failrate" /\ e.draws = 0)
+         IN <<IF Le(MulSmall(num, 1000), MulSmall(den, 85)) /\ ~(e.kind = "err" /\ e.draws = 0)
                 THEN "P:C16:a-recipe-beyond-the-tolerated-failure-probability-of-1e-9-was-not-refused-up-front" ELSE "ok",
-              IF ~Lt(MulSmall(num, 1000), MulSmall(den, 110)) /\ e.kind = "err" /\ e.err = "failrate"
+              IF ~Lt(MulSmall(num, 1000), MulSmall(den, 110)) /\ e.kind = "err" /\ e.draws = 0
                 THEN "P:C16:a-recipe-within-the-tolerated-failure-probability-was-refused" ELSE "ok">>
     [] e.op = "preset" ->
          LET want == PresetValues(e.name)
